@@ -376,6 +376,15 @@ pub fn cli_sharing_check(rng: &mut Rng, counters: &mut BTreeMap<String, u64>) ->
 /// input gives party j a triple whose slots j and j+1 agree with the neighbours' and add up to the secret while the third
 /// slot is not the missing share; and the two processes draw different shares (the generator is seeded by the OS, which
 /// the harness cannot replay - the verdict does not depend on the draw except with probability < 2^-60).
+fn has_empty_vector(t: &Type) -> bool {
+    match t {
+        Type::Vector(n, e) => *n == 0 || has_empty_vector(e),
+        Type::Tuple(ts) => ts.iter().any(|x| has_empty_vector(x)),
+        Type::NamedTuple(ts) => ts.iter().any(|(_, x)| has_empty_vector(x)),
+        _ => false,
+    }
+}
+
 pub fn split_parties_check(rng: &mut Rng, counters: &mut BTreeMap<String, u64>) -> Option<(String, String)> {
     let bin = match std::env::var("VERIF_SPLIT_BIN") {
         Ok(b) if std::path::Path::new(&b).exists() => b,
@@ -432,19 +441,23 @@ pub fn split_parties_check(rng: &mut Rng, counters: &mut BTreeMap<String, u64>) 
             let secret = &inputs[i].value;
             let bits = ciphercore_base::data_types::get_size_in_bits(t.clone()).unwrap_or(0);
             let nonzero_bytes = crate::vals::flat_bytes(secret).iter().filter(|b| **b != 0).count();
+            // The JSON form of a TypedValue carries no element type for a vector without entries, so the type read back
+            // from a party file is `vector of ()` there: a limit of the file format (value encoding), not of the sharing.
+            // Types are compared only when the format can represent them; values are always compared.
+            let lossy_t = has_empty_vector(&t);
             for (r, run) in runs.iter().enumerate() {
                 match owners[i] {
                     "public" => {
                         for p in 0..3 {
-                            if run[p][i].t != t || !typed_eq(&t, &run[p][i].value, secret) {
-                                return Ok(Some(("split-parties".into(), format!("public input {} is not handed to party {} unchanged", i, p))));
+                            if (!lossy_t && run[p][i].t != t) || !typed_eq(&t, &run[p][i].value, secret) {
+                                return Ok(Some(("split-parties".into(), format!("public input {} is not handed to party {} unchanged (type {}; type in the party file {}; sent {}; received {})", i, p, crate::dsl::type_str(&t), crate::dsl::type_str(&run[p][i].t), crate::vals::raw_bytes_hex(secret).chars().take(80).collect::<String>(), crate::vals::raw_bytes_hex(&run[p][i].value).chars().take(80).collect::<String>()))));
                             }
                         }
                     }
                     "0" | "1" | "2" => {
                         let o: usize = owners[i].parse().unwrap();
                         for p in 0..3 {
-                            if run[p][i].t != t || !run[p][i].value.check_type(t.clone()).unwrap_or(false) {
+                            if (!lossy_t && run[p][i].t != t) || !run[p][i].value.check_type(t.clone()).unwrap_or(false) {
                                 return Ok(Some(("split-parties".into(), format!("input {} in the file of party {} does not have the input's type", i, p))));
                             }
                             let same = typed_eq(&t, &run[p][i].value, secret);
